@@ -350,6 +350,28 @@ def rule_hits(ck):
         ck.ob("mpt.hit_bookkeeping", "should_skip_breakpoint/order", [x for x in order if x in want] == want, f"{order}", g.loc())
         rh = [c for c in g.calls() if c.name.endswith("record_breakpoint_hit")]
         ck.ob("mpt.hit_bookkeeping", "should_skip_breakpoint/lookup-by-stop-address", bool(rh) and "Relocated(arg3)" in expr_str(expr_of(g, rh[0].args[1]), 5), expr_str(expr_of(g, rh[0].args[1]), 5) if rh else "", g.loc())
+    # a logpoint logs and never stops: once the record's log message is present, the only non-I/O outcome of
+    # should_skip_breakpoint is Ok(true), and expanding the template cannot fail (a placeholder that does not evaluate
+    # is logged as text)
+    if ss:
+        g = ss[0]
+        lsw = [(b, t) for b, t, pl in switches_on_type(g, "std::option::Option<&str>") if ".log_message" in expr_str(expr_of(g, {"k": "copy", "p": pl}), 8)]
+        if ck.ob("mpt.hit_bookkeeping", "should_skip_breakpoint/log-message-test", len(lsw) == 1, f"{len(lsw)} tests of the record's log_message", g.loc()):
+            b, t = lsw[0]
+            some = [x for v, x in t["arms"] if int(v) == 1]
+            reach = g.reach_from(some) if some else set()
+            outs = [(i, rv) for i, j, pl, rv, sp in g.assigns() if pl == [0] and i in reach and rv["r"] == "agg" and rv.get("variant") == "Ok"]
+            vals = [rv["ops"][0].get("val") for i, rv in outs]
+            ck.ob("mpt.hit_bookkeeping", "should_skip_breakpoint/logpoint-always-skips", bool(outs) and all(str(v) == "1" for v in vals), f"Ok results on the logpoint arm: {vals}", g.loc(some[0]) if some else g.loc(), what="a logpoint can make the adapter report a stop")
+            fm = [c for c in g.calls() if c.name.endswith("::format_log_message") and c.bb in reach]
+            ck.ob("mpt.hit_bookkeeping", "should_skip_breakpoint/logpoint-formats-its-message", len(fm) == 1, "", g.loc())
+        fl = [f2 for p2, f2 in prog.fns.items() if p2.endswith("::format_log_message")]
+        if ck.ob("mpt.hit_bookkeeping", "format_log_message/exists", len(fl) == 1, "", ""):
+            h = fl[0]
+            ck.saw(h)
+            fails = [c for x in prog.with_closures(h.path) for c in x.calls() if "from_residual" in c.name] if False else [c for c in h.calls() if "from_residual" in c.name]
+            errs = [i for i, j, pl, rv, sp in h.assigns() if pl == [0] and not (rv["r"] == "agg" and rv.get("variant") == "Ok")]
+            ck.ob("mpt.hit_bookkeeping", "format_log_message/cannot-fail", not fails and not errs, f"{len(fails)} `?` exits, {len(errs)} non-Ok results", h.loc(fails[0].bb) if fails else h.loc(), what="a log message whose placeholder cannot be evaluated makes the logpoint abort the stop handling: the program stays halted without a stopped event and nothing is logged")
     # every recorded hit counts exactly once
     rh_ = [g for p_, g in prog.fns.items() if p_.endswith("::record_breakpoint_hit")]
     if rh_:
